@@ -244,6 +244,9 @@ class Dex:
             elif k in ("call", "tailcall"):
                 c = t[1]
                 for s2, val, diverge in self.call(fn, body, st, c, depth):
+                    if diverge == "loop":
+                        results.append((s2, "loop", None))      # an iterator adaptor was unrolled to the bound
+                        continue
                     if diverge or c.get("target") is None:
                         results.append((s2, "panic", sym("panic:" + M.callee_name(c))))
                         continue
@@ -1192,6 +1195,70 @@ def m_bool_then_some(dex, fn, body, st, c, args, depth):
         yield s2, (some(args[1]) if truth else NONE), False
 
 
+NEXT_NAME = "<adaptor as core::iter::traits::iterator::Iterator>::next"
+
+
+def _adaptor_iter(it):
+    """The iterator value as a `for` loop over the same expression would name it."""
+    t = show(it)
+    return it if t.startswith("IntoIterator::into_iter(") else sym(f"IntoIterator::into_iter({t})")
+
+
+def _adaptor_next(dex, st, it, c):
+    """One `next()` on the adaptor's receiver, named and recorded exactly like the `next()` of a `for` loop; yields (state, element | None)."""
+    if dex.effects(NEXT_NAME):
+        st.effects.append((NEXT_NAME, (it,), c.get("line")))
+    v = dex.opaque_call(st, NEXT_NAME, [it], c)
+    for n, s2, payload in variant_fork(dex, st, v, *OPT):
+        yield s2, (payload if n == "Some" else None), n
+
+
+def m_try_for_each(dex, fn, body, st, c, args, depth):
+    """iter.try_for_each(f) == for x in iter { f(x)? } Ok(())   (bounded unrolling, like a loop in the body)"""
+    it, f = _adaptor_iter(args[0]), args[1]
+    rty = (c.get("fnargs") or ["", "", ""])[-1]
+    is_opt = rty.startswith("core::option::Option")
+    done = some(UNIT) if is_opt else ok(UNIT)
+    work = [(st, 0)]
+    while work:
+        st0, k = work.pop()
+        if k > dex.unroll:
+            yield st0, None, "loop"
+            continue
+        for s1, x, n in _adaptor_next(dex, st0, it, c):
+            if n == "None":
+                yield s1, done, False
+                continue
+            for s2, r, div in dex.call_closure(s1, f, [x], depth):
+                if div:
+                    yield s2, r, div
+                    continue
+                for vn, s3, payload in variant_fork(dex, s2, r, *(OPT if is_opt else RES)):
+                    if vn in ("Ok", "Some"):
+                        work.append((s3, k + 1))
+                    else:
+                        yield s3, r, False
+
+
+def m_for_each(dex, fn, body, st, c, args, depth):
+    it, f = _adaptor_iter(args[0]), args[1]
+    work = [(st, 0)]
+    while work:
+        st0, k = work.pop()
+        if k > dex.unroll:
+            yield st0, None, "loop"
+            continue
+        for s1, x, n in _adaptor_next(dex, st0, it, c):
+            if n == "None":
+                yield s1, UNIT, False
+                continue
+            for s2, r, div in dex.call_closure(s1, f, [x], depth):
+                if div:
+                    yield s2, r, div
+                else:
+                    work.append((s2, k + 1))
+
+
 def m_unit(dex, fn, body, st, c, args, depth):
     yield st, UNIT, False
 
@@ -1257,6 +1324,8 @@ SUFFIX_MODELS = [
     ("option::Option::<T>::unwrap_or_default", m_opt_unwrap_or_default),
     ("option::Option::<T>::ok_or", m_opt_ok_or),
     ("option::Option::<T>::ok_or_else", m_opt_ok_or_else),
+    ("iter::traits::iterator::Iterator::try_for_each", m_try_for_each),
+    ("iter::traits::iterator::Iterator::for_each", m_for_each),
     ("option::Option::<T>::or_else", m_opt_or_else),
     ("option::Option::<T>::or", m_opt_or),
     ("option::Option::<T>::and", m_opt_and),
